@@ -3,6 +3,7 @@
 import json, glob, os, re
 rows = []
 stats = {}
+unreported = []
 for d in sorted(glob.glob('/verif/seeded/*/meta.json')):
     m = json.load(open(d))
     sid = m['id']
@@ -17,12 +18,16 @@ for d in sorted(glob.glob('/verif/seeded/*/meta.json')):
     note = (oc.get('note') or '').replace('|', '/').replace('\n', ' ')
     if missed:
         note = '**missed at first** — ' + note
+    if not oc['caught_by']:
+        unreported.append(f'`seeded/{sid}`')
     rows.append(f"| `seeded/{sid}` | {m['property']} | {summ} | {', '.join(oc['caught_by'])} | {note} |")
 head = ["| seeded change | property | what it changes | caught by | note |", "|---|---|---|---|---|"]
 intro = (f"{len(stats)} rounds ({len(rows)} changes). Round 1 and 2: one change per property each (round 2 was told which function round 1 had touched and had to break the property elsewhere). "
          "Rounds 3 to 5: two changes per property each, told about all earlier ones and asked for different code and different clauses. "
          + " ".join(f"Round {r}: {v[0]} changes, {v[0]-v[1]} reported by the checks as they stood, {v[1]} missed at first." for r, v in sorted(stats.items()))
-         + " Every miss led to the strengthening noted in the last column; after each strengthening all stored changes are re-run (`tools/seed_sweep.sh`, result in `seeded/SWEEP.txt`): every one is reported now (exit 1 with the change applied, exit 0 without).")
+         + " Every miss led to the strengthening noted in the last column; after each strengthening all stored changes are re-run (`tools/seed_sweep.sh`, result in `seeded/SWEEP.txt`). "
+         + (f"{len(unreported)} change(s) are still not reported by any check and are recorded as limits in §4: " + ", ".join(unreported) + ". " if unreported else "")
+         + "A few changes break their property only through another property's subject (the column *caught by* then names that check); all others are reported by the check of their own property (exit 1 with the change applied, exit 0 without).")
 p = '/verif/DESIGN.md'
 s = open(p).read()
 start = s.index("| seeded change | property |")
